@@ -52,3 +52,8 @@ chk("C13", "proof",
     "Theorems (Coq, closed): the executable stratification check accepts a stratum arrangement iff a level function exists (positive edges non-increasing, negation/aggregation edges strictly decreasing); a program in which a relation depends on itself through negation or aggregation is rejected under EVERY arrangement of its clauses. Tied by verdict comparison: generated well-formed programs must be accepted by souffle and the model check; the same programs with one injected defect (negation/aggregation cycle, ungrounded head/negated/constraint variable, type mismatch) must be rejected with status 1, a diagnostic, and no output file; cycle verdicts of the extracted check and souffle are compared.",
     "Trusted: Coq kernel; groundedness and typing are not modelled (the injected defect's expected verdict is known by construction); python SCC computation proposes the arrangement the Coq check validates.",
     "Coq characterisation of the stratification check + verdict correspondence on defect-injected programs", "DESIGN.md §6 C13")
+
+chk("C24", "proof",
+    "Theorems (Coq, 31 obligations; 26 closed, the 5 about real-valued IEEE semantics modulo the standard library's real-number axioms): for ALL 32-bit arguments every integer/unsigned/bitwise/shift/logical/min-max/comparison/exponent/string operator's code-shaped definition equals its mathematical specification on the defined domain; float operators are IEEE-754 binary32 round-to-nearest-even (Coq SpecFloat, bridged to Flocq), float addition is proved non-associative by witness. Tied by one generated program that applies every operator to a boundary grid x random values in the interpreter AND the compiled executable, compared with the extracted model (floats as bit patterns).",
+    "Trusted: Coq kernel; axioms of the 5 float theorems: ClassicalDedekindReals.sig_not_dec, sig_forall_dec, FunctionalExtensionality.functional_extensionality_dep, Classical_Prop.classic (standard library, via Flocq/Reals); extraction + driver; std::pow exactness assumed; NaN payloads canonicalised; FEXP, float<->string not modelled.",
+    "Coq proofs operator-by-operator (code-shaped = specification) + differential correspondence on interpreter and compiled code", "DESIGN.md §6 C24")
